@@ -16,7 +16,7 @@ Binding      : spec -> code: every (term, rendering) pair and every near-miss TL
                code -> spec: the recorded outcomes (accept/reject, the term projected from
                the real ctype, object identity) are validated by TLC against the property
                (Trace_CDecl.tla: both reject or both denote the same type), for the
-               enumerated strings, for deep simulated renderings and for real-size cases.
+               enumerated strings and for real-size cases (huge lengths, long chains).
 Verdicts     : only from the property (agreement).  Disagreement with Read/ParseC that keeps
                the parsers in agreement is a NOTE (model divergence).
 """
@@ -233,6 +233,8 @@ def model_notes(ctx, cases, results):
         if info["kind"] == "R":
             want_c = info["parsec"]
             want_py = "ok" if "base-before-modifier" not in info["classes"] else "err"
+            if "paren-paren" in info["classes"] and ("__stdcall" in toks or "__cdecl" in toks):
+                want_py = None      # '( __stdcall (' is rewritten textually by cparser (_r_stdcall2): not modelled
             term = info["term"]
         else:
             want_c = info["parsec"]["r"]
